@@ -1,16 +1,20 @@
 import LunaVerif.Core.Proto
 import LunaVerif.Model.Usb2.StreamOutEndpoint
+import LunaVerif.Lemmas.C13Host
 open LunaVerif LunaVerif.Proto LunaVerif.StreamOutEndpoint
 
 /-- config line: `# endpoint_number max_packet_size buffer_size`; input line: `rx_valid rx_next rx_payload
 rx_complete rx_invalid rx_ready_for_response rx_pid_toggle tok_endpoint tok_is_out tok_is_ping
-tok_ready_for_response clear_halt ready tok_new_token`; output line: `ack nak valid payload first last`. -/
+tok_ready_for_response clear_halt ready tok_new_token`; output line: `ack nak valid payload first last legal`,
+where `legal` = the history up to and including this cycle is accepted by the acceptor of `LegalHost`
+(`Phase.step` of `Lemmas/C13Host.lean`, the hypothesis of the history-level theorems). -/
 def main : IO Unit :=
-  runDriver (σ := Config × State)
-    (fun cfg => (⟨fld cfg 0, fld cfg 1, fld cfg 2⟩, init))
-    (fun (c, s) i =>
+  runDriver (σ := Config × State × Option Phase)
+    (fun cfg => (⟨fld cfg 0, fld cfg 1, fld cfg 2⟩, init, some Phase.idle))
+    (fun (c, s, ph) i =>
       let inp : In := ⟨⟨n2b (fld i 0), n2b (fld i 1), fld i 2, n2b (fld i 3), n2b (fld i 4)⟩,
                        n2b (fld i 5), fld i 6, fld i 7, n2b (fld i 8), n2b (fld i 9), n2b (fld i 10),
                        n2b (fld i 13), n2b (fld i 11), n2b (fld i 12)⟩
       let (s', o) := step c s inp
-      ((c, s'), [b2n o.ack, b2n o.nak, b2n o.valid, o.data, b2n o.first, b2n o.last]))
+      let ph' := ph.bind (fun p => p.step c inp)
+      ((c, s', ph'), [b2n o.ack, b2n o.nak, b2n o.valid, o.data, b2n o.first, b2n o.last, b2n ph'.isSome]))
